@@ -5,11 +5,18 @@ evaluator (c08_eval.rs RULE_IDS): the rule is on only while the finding is open.
 import json, os
 ROOT = "/verif"
 F = []
+# repaired in /repo: recorded as `fixed` in /verif/known_findings.json by the integrator; the
+# witness file is kept, the staging entry (and with it the deviation rule) is dropped
+FIXED = {"C08-F8": "e05eb43", "C08-F25": "a6c6176"}
 def f(id, what, where, witness, sigs=()):
     F.append({"property": "C08", "id": id, "status": "open", "what": what, "where": where,
               "witness": f"findings/{id}.json", "match": {"rule": id, "signatures": list(sigs)}})
     w = {"id": id, "property": "C08", "what": what, "where": where}
     w.update(witness)
+    if id in FIXED:
+        F.pop()
+        w["status"] = "fixed"
+        w["fixed_in"] = FIXED[id]
     json.dump(w, open(f"{ROOT}/findings/{id}.json", "w"), indent=1)
 
 G1 = "db.create_node_with_props / create_edge_with_props on GrafeoDB::new_in_memory() (epoch 0, no transaction)"
